@@ -80,13 +80,15 @@ IfsOf(stack, tight) ==
     [k \in 1..Len(stack) |-> CASE stack[k] = "main" -> Iface(TRUE, FALSE, TRUE, FALSE, FALSE, FALSE)
                                [] stack[k] = "f"    -> Iface(TRUE, FALSE, FALSE, FALSE, tight, FALSE)
                                [] OTHER             -> Iface(TRUE, FALSE, FALSE, FALSE, FALSE, FALSE)]
-RunCfg(steps, sc, sn, stack, tight) ==
+\* bolset (Operator.tla): 0 = the reactor is at (sc, sn) when operate() is entered; i > 0 = the run is entered at (0, 0) and the
+\* BOL hook of interface i moves the reactor to (sc, sn) -- what MainInterface.interactBOL does in a restart
+RunCfg(steps, sc, sn, stack, tight, bolset) ==
     [steps |-> steps, sc |-> sc, sn |-> sn, ifs |-> IfsOf(stack, tight), dcyc |-> 0, tight |-> tight, cap |-> 1,
-     skip |-> [k \in 1..Len(steps) |-> FALSE]]
+     skip |-> [k \in 1..Len(steps) |-> FALSE], bolset |-> bolset]
 DbI == CHOOSE i \in 1..Len(roles) : roles[i] = "db"
 
 RInitWith(steps, sc, sn, stack, tight) ==
-    /\ InitWith(RunCfg(steps, sc, sn, stack, tight))
+    /\ InitWith(RunCfg(steps, sc, sn, stack, tight, 0))
     /\ roles = stack /\ db = NoDb /\ val = 0 /\ crash = NoCrash
     /\ phase = 1 /\ src = <<>> /\ crash1 = NoCrash
 
@@ -129,9 +131,10 @@ Fail == /\ Running /\ pc \in Events /\ queue # <<>> /\ roles[Head(queue)] = "f"
 \* Operator!InitWith for the next state (TLC cannot assign through a primed operator application); RestartIsInit checks that
 \* the two agree
 ReInit(c) ==
-    /\ cfg' = c /\ pc' = "Start" /\ cycle' = c.sc /\ node' = c.sn /\ iter' = 0 /\ queue' = <<>> /\ halt' = FALSE /\ conv' = TRUE
-    /\ rc' = c.sc /\ rn' = c.sn /\ ci' = 0 /\ sl' = NoRef /\ pw' = NoRef /\ log' = <<>>
-    /\ evs' = <<>> /\ cvs' = <<>> /\ called' = <<>> /\ lastc' = NoCall /\ haltedAt' = None /\ haltReq' = <<>>
+    /\ cfg' = c /\ pc' = "Start" /\ cycle' = EntryPoint(c)[1] /\ node' = EntryPoint(c)[2] /\ iter' = 0 /\ queue' = <<>>
+    /\ halt' = FALSE /\ conv' = TRUE
+    /\ rc' = EntryPoint(c)[1] /\ rn' = EntryPoint(c)[2] /\ ci' = 0 /\ sl' = NoRef /\ pw' = NoRef /\ log' = <<>>
+    /\ evs' = <<>> /\ cvs' = <<>> /\ called' = <<>> /\ lastc' = NoCall /\ haltedAt' = None /\ haltReq' = <<>> /\ startAt' = NoRef
 RestartIsInit == (phase = 2 /\ pc = "Start") => InitWith(cfg)
 \* the second run: a fresh operator and reactor built from the input, restart settings pointing at the file of the first run
 Restart(sc, sn) ==
@@ -139,7 +142,7 @@ Restart(sc, sn) ==
     /\ <<sc, sn>> \in Nodes(cfg.steps) /\ <<sc, sn>> # <<0, 0>>
     /\ \/ pc = "Done" /\ Running                                         \* from a completed run: any later node
        \/ ~Running /\ crash.open /\ sc = crash.c /\ sn = crash.n            \* from an aborted run: the node of the failure
-    /\ ReInit(RunCfg(cfg.steps, sc, sn, roles, cfg.tight))
+    /\ ReInit(RunCfg(cfg.steps, sc, sn, roles, cfg.tight, 1))          \* the BOL hook of MainInterface sets the restart point
     /\ phase' = 2 /\ src' = db.snaps /\ crash1' = crash
     /\ roles' = roles /\ db' = NoDb /\ val' = 0 /\ crash' = NoCrash
 RNext == RControl \/ RCall \/ RDbWrite \/ Fail
